@@ -146,6 +146,31 @@ def schnorr_sign(seckey, msg, aux=b'\x00'*32):
 
 
 
+def schnorr_sign_nonce(seckey, msg, k0):
+    """BIP340 signature with a caller-chosen nonce (any k0 gives a valid signature; used to steer the bytes of R)"""
+    P = aff(jmul(G, seckey)); d = seckey if P[1] % 2 == 0 else n - seckey
+    pk = P[0].to_bytes(32, 'big')
+    R = aff(jmul(G, k0)); k = k0 if R[1] % 2 == 0 else n - k0
+    e = int.from_bytes(tagged("BIP0340/challenge", R[0].to_bytes(32, 'big') + pk + msg), 'big') % n
+    return R[0].to_bytes(32, 'big') + ((k + e*d) % n).to_bytes(32, 'big')
+
+
+_NONCE_BY_FIRST_BYTE = {}
+
+
+def nonce_with_first_byte(b, start=1):
+    """smallest k >= start with (k*G).x starting with byte b"""
+    key = (b, start)
+    if key not in _NONCE_BY_FIRST_BYTE:
+        k = start
+        while True:
+            if aff(jmul(G, k))[0] >> 248 == b:
+                break
+            k += 1
+        _NONCE_BY_FIRST_BYTE[key] = k
+    return _NONCE_BY_FIRST_BYTE[key]
+
+
 def pub_from_sec(d, compressed=True):
     P = aff(jmul(G, d))
     if compressed:
